@@ -49,7 +49,7 @@ def c02(scn, out, exp):
             ends.setdefault(e['name'], e['t'])
         elif e['k'] == 'start':
             starts.setdefault(e['name'], e['t'])
-    simdeaths = {n for n, a in (scn.get('failing') or {}).items() if a in ('kill', 'exit')} \
+    simdeaths = {n for n, a in (scn.get('failing') or {}).items() if a in ('kill', 'exit', 'exit0')} \
         if scn['backend'] == 'sim' else set()
     for n, ts in starts.items():
         for d in flat_deps(spec, n):
@@ -100,7 +100,7 @@ def c03(scn, out):
     E, L = planned(scn, out)
     bad = []
     starts = Counter(e['name'] for e in gen1(out.events) if e['k'] == 'start')
-    deaths = {n for n, a in (scn.get('failing') or {}).items() if a in ('kill', 'exit')} \
+    deaths = {n for n, a in (scn.get('failing') or {}).items() if a in ('kill', 'exit', 'exit0')} \
         if scn['backend'] == 'sim' else set()
     for n, c in starts.items():
         if c > 1:
